@@ -17,8 +17,9 @@ def cksum (i size : Nat) : Nat := Id.run do
     b := (b + a) % 65521
   return b * 65536 + a
 
-def expected (k size : Nat) : String :=
-  "got " ++ " ".intercalate ((List.range k).map fun i => s!"({i},{size},{cksum i size})")
+/-- `m` = number of consumer replicas (the stream is broadcast): every element arrives once per replica -/
+def expected (k size m : Nat) : String :=
+  "got " ++ " ".intercalate ((List.range k).flatMap fun i => List.replicate m s!"({i},{size},{cksum i size})")
 
 def handle (c : Case) : Verdict :=
   match c.header with
@@ -26,9 +27,10 @@ def handle (c : Case) : Verdict :=
     match k.toNat?, size.toNat?, batch.toNat? with
     | some k, some size, some batch =>
       if c.ops.isEmpty then { out := [], oracle := none, nontrivial := false } else
-      let exp := expected k size
+      let m := match hosts.toNat? with | some h => if h ≤ 1 then 2 else h | none => 1
+      let exp := expected k size m
       let oracle := if c.implOut == [exp] then none
-        else some s!"[C02] a batch of {batch * size} bytes ({hosts} hosts): the sink did not receive every element exactly once and unchanged: {(c.implOut.headD "").take 160}"
+        else some s!"[C02] a batch of {batch * size} bytes ({hosts} hosts): the sink did not receive every element exactly once per replica and unchanged: {(c.implOut.headD "").take 160}"
       { out := [exp], oracle, nontrivial := hosts != "1",
         tags := [s!"hosts{hosts}", if batch * size ≥ 16777216 then "msg>=16MiB" else "msg<16MiB",
                  if batch * size ≥ 67108864 then "msg>=64MiB" else "msg<64MiB"] }
